@@ -195,6 +195,7 @@ REGEN = {
             "gemCharAt", "gemGraphemeIndexes"],
     "GemOps": ["gemSub", "gemSetCharAt", "gemRepeat", "gemRepeatStr", "gemIndexFunc"],
     "GemInv": [],
+    "GemRev": ["gemReverse", "gemLastIndexFunc"],
 }
 REGEN_OF = {
     "C04": ["Chars"], "C05": ["Chars", "Commit"], "C06": ["Collapse", "Wrap", "WrapOpts"],
@@ -203,7 +204,7 @@ REGEN_OF = {
     "C13": ["Align"], "C14": ["Combine", "Wrap"], "C15": ["Combine", "Wrap"], "C16": ["Table", "InsertTable", "Block"],
     "C17": ["Options", "WrapOpts", "IndentOpts", "Collapse", "Apply", "Paras", "InsertTable"],
     "C18": ["Block", "Chars", "Lines", "Commit", "Edit"],
-    "C19": ["Gem", "GemOps", "GemInv"], "C20": ["Gem", "GemOps", "GemInv"],
+    "C19": ["Gem", "GemOps", "GemInv", "GemRev"], "C20": ["Gem", "GemOps", "GemInv", "GemRev"],
 }
 
 
@@ -225,7 +226,8 @@ REGEN_CXA = {"Chars": ["editorChars_cxA"], "Lines": ["editorLinesSel_cxA"], "Edi
              "InsertTable": ["editorInsertTableOpts_cxA"],
              # hypotheses CellAlloc / GemOK discharged from the pool invariant H.Inv and for every history
              "GemInv": ["gemOK_of_inv", "gemOK_histories", "gemLen_inv", "gemCharAt_inv", "gemGraphemeIndexes_inv", "gemSub_inv",
-                        "gemSetCharAt_inv", "gemIndexFunc_inv"]}
+                        "gemSetCharAt_inv", "gemIndexFunc_inv"],
+             "GemRev": ["gemReverse_inv", "gemLastIndexFunc_inv", "reverse_gemOK"]}
 
 
 def regen_theorems(pid):
